@@ -8,6 +8,9 @@ _W = 'EPV.Lemmas.RiemannIGWaves'
 _F = 'EPV.Lemmas.RiemannIGFan'
 _P = 'EPV.Props.C04.Riemann'
 _X = 'EPV.Props.C04.FindingIdentical'
+_C = 'EPV.Props.C04.RiemannClassified'
+_G = 'EPV.Props.C04.RiemannGen'
+_GW = 'EPV.Lemmas.RiemannGenWaves'
 
 # generated models (group 'riemann') behind the hand model's helper formulas (EPV.Lemmas.Riemann, m_*)
 _PIECES = ['RiemSound', 'RiemSie', 'RiemShock', 'RiemRare', 'RiemRhoShock', 'RiemRhoRare', 'RiemShockVel', 'RiemFan']
@@ -22,7 +25,8 @@ PROP = dict(
              'EPV.Conservation.constPiece_good']),
         obl('C04.abstract.state', _S,
             ['EPV.Conservation.rankineHugoniot_iff_match', 'EPV.Conservation.conservationFormula_of_svalid',
-             'EPV.Conservation.integral_riemannInitial', 'EPV.Conservation.IntegralConservation.of_formula']),
+             'EPV.Conservation.integral_riemannInitial', 'EPV.Conservation.IntegralConservation.of_formula',
+             'EPV.Conservation.svalid_append', 'EPV.Conservation.conservationFormula_of_halves']),
         # the elementary waves of the ideal gas
         obl('C04.riemann_ig.shock', _W,
             ['EPV.C04.shock_rankineHugoniot', 'EPV.C04.shock_order', 'EPV.C04.shockRho_pos']),
@@ -38,13 +42,37 @@ PROP = dict(
             _PIECES + ['RiemRCS'], o_c04.ig['RCS']),
         obl('C04.riemann_ig.rcr', _P, ['EPV.C04.rcr_solve', 'EPV.C04.rcr_conservationFormula', 'EPV.C04.rcr_conservation'],
             _PIECES + ['RiemRCR'], o_c04.ig['RCR']),
+        # all patterns at once, pattern chosen by the driver's own classification (px range from monotonicity)
+        obl('C04.riemann_ig.classified', _C,
+            ['EPV.C04.riemann_ig_conservation', 'EPV.C04.sod_classify'],
+            _PIECES + ['RiemSCS', 'RiemSCR', 'RiemRCS', 'RiemRCR', 'RiemUSCN', 'RiemUNCS', 'RiemUNCR', 'RiemURCN', 'RiemURCVR'],
+            o_c04.ig_all),
         # the hand model of the assembly (EPV.Model.RiemannIG) against the real driver and the public solver
         obl('C04.riemann_ig.assembly_tie', tie=o_c04.tie_assembly),
+        # identical (p, rho, u) with EQUAL gammas: constant solution, conserved whatever Vregs are
+        obl('C04.riemann_ig.identical_equal_gamma', 'EPV.Props.C04.RiemannIdentical',
+            ['EPV.C04.scs_root_identical', 'EPV.C04.identical_solution', 'EPV.C04.identical_equal_gamma_conservation'],
+            ['RiemShock', 'RiemRhoShock', 'RiemShockVel', 'RiemSCS']),
         # FINDING: identical (p, rho, u), unequal gammas: the `==` side detection moves the interface
         obl('C04.riemann_ig.identical_states', _X,
             ['EPV.C04.qId_classify', 'EPV.C04.qId_root', 'EPV.C04.qId_vregs', 'EPV.C04.qId_wavesInside',
              'EPV.C04.qId_solution', 'EPV.C04.identical_states_not_conserved'],
             ['RiemShockVel', 'RiemSCS'], o_c04.identical, finding=True),
+        # (P) general-EOS solver: ODE solution, its inversion and the Hugoniot root are atoms
+        obl('C04.riemann_gen.waves', _GW,
+            ['EPV.C04.gen_shock_rankineHugoniot', 'EPV.C04.gen_first_law', 'EPV.C04.gen_fan_hasDerivAt',
+             'EPV.C04.GenFan.sgood']),
+        obl('C04.riemann_gen.partial', _G,
+            ['EPV.C04.closureIG_lawful', 'EPV.C04.closureJWL_lawful', 'EPV.C04.gen_shock_rh',
+             'EPV.C04.shockSpeed_left', 'EPV.C04.shockSpeed_right', 'EPV.C04.starVel_left', 'EPV.C04.starVel_right',
+             'EPV.C04.FanAtoms.sgood', 'EPV.C04.closureIG_chainRule', 'EPV.C04.jwl_dsdr', 'EPV.C04.closureJWL_chainRule',
+             'EPV.C04.FanAtoms.solves_of_chainRule',
+             'EPV.C04.gen_scs_conservationFormula_partial', 'EPV.C04.gen_scr_conservationFormula_partial',
+             'EPV.C04.gen_rcs_conservationFormula_partial', 'EPV.C04.gen_rcr_conservationFormula_partial',
+             'EPV.C04.igFan_solves', 'EPV.C04.ex_leftFan'],
+            ['RiemOdeIG', 'RiemOdeJWL', 'RiemSound', 'RiemSoundJWL', 'RiemSie', 'RiemSieJWL', 'RiemDsdrIG', 'RiemDsdpIG',
+             'RiemDsdrJWL', 'RiemDsdpJWL', 'RiemShockJumpIG', 'RiemShockJumpJWL', 'RiemShockSpeedIG',
+             'RiemShockSpeedJWL', 'RiemStarVelIG', 'RiemStarVelJWL']),
         # general-EOS solver on the real code (thorough tier only: 2 s per call)
         obl('C04.riemann_gen.real_igeos', oracle=o_c04.gen_ig),
         obl('C04.riemann_gen.real_jwl', oracle=o_c04.gen_jwl),
@@ -60,6 +88,12 @@ PROP = dict(
           'the theorems are about the real-number instantiation of the hand model EPV.Model.RiemannIG of the '
           'driver\'s assembly (Vregs, reg_state sequence), whose helper formulas are proved equal to the generated '
           'models of utils.py and which is run on Float against the real driver and the public solver (tie). '
+          'With the monotonicity of the four residuals (generated derivative certificates) the pattern hypothesis is '
+          'discharged from the driver\'s own classification (riemann_ig_conservation). '
           'FINDING: identical (p, rho, u) with unequal gammas is not conserved (negation proved at a witness, '
-          'reproduced on the real code). The internal grid / interp of the wrapper is modelled-not-verified.',
+          'reproduced on the real code). The internal grid / interp of the wrapper is modelled-not-verified. '
+          'General-EOS solver (PARTIAL): conservation of the four patterns for ideal-gas and JWL closures with the ODE '
+          'solution of the traced drdp_dudp, its inversion, the bisect root of the traced shock_jump and the crossing '
+          'of the P-U curves as atoms (the chain rule of sie with the coded dsdp_cR, dsdr_cP is proved for both closures); the '
+          'driver\'s interpolation onto its grid is not modelled (oracle on the real solver, thorough tier).',
 )
